@@ -254,6 +254,20 @@ def gen_wsdl(r, idx, force=None):
         W["services"] = [{"name": "SvcA%d" % idx, "ports": [{"name": "P0", "binding": b0, "location": loc(0)}]},
                          {"name": "SvcB%d" % idx, "ports": [{"name": "P0", "binding": W["bindings"][1]["name"], "location": loc(1)}]}]
     r.shuffle(W["messages"])
+    # a second WSDL file reached by wsdl:import: any of messages / portTypes / bindings, and the
+    # types in the importing file, the imported one, or both
+    if force.get("split") or ("split" not in force and r.random() < 0.3):
+        sp_ = force.get("split") if isinstance(force.get("split"), dict) else {}
+        moved = sp_.get("imported")
+        if moved is None:
+            moved = [k for k in ("messages", "port_types", "bindings") if r.random() < 0.5]
+        types = sp_.get("types") or r.choice(["main", "imported", "both", "both"])
+        if not moved and types == "main":
+            types = "imported"
+        names = [e["name"] for e in W["elements"]]
+        eb = [n for n in names if r.random() < 0.5 or "Header" in n]
+        W["split"] = {"imported": moved, "types": types, "elements_b": eb}
+        feats.append("wsdl-import:" + types + ":" + "+".join(k[0] for k in moved))
     return W
 
 
@@ -268,16 +282,16 @@ def render(W):
     def ref(name):               # reference to a WSDL component of this document
         return name if W["default_tns"] else f"{tp}:{name}"
 
-    def schema_body():
+    def schema_body(elements=None, with_types=True):
         out = []
-        for e in W["elements"]:
+        for e in (W["elements"] if elements is None else elements):
             if e["type"]:
                 out.append(f'<{xs}:element name={q(e["name"])} type={q(typ + ":" + e["type"])}/>')
             else:
                 out.append(f'<{xs}:element name={q(e["name"])}><{xs}:complexType>{seq(e["children"])}</{xs}:complexType></{xs}:element>')
-        for c in W["complex"]:
+        for c in (W["complex"] if with_types else []):
             out.append(f'<{xs}:complexType name={q(c["name"])}>{seq(c["children"])}</{xs}:complexType>')
-        for s in W["simple"]:
+        for s in (W["simple"] if with_types else []):
             facets = ("".join(f'<{xs}:enumeration value={q(v)}/>' for v in s["enum"]) if s["enum"]
                       else f'<{xs}:maxLength value="12"/>')
             out.append(f'<{xs}:simpleType name={q(s["name"])}><{xs}:restriction base="{xs}:{s["base"]}">{facets}</{xs}:restriction></{xs}:simpleType>')
@@ -291,12 +305,26 @@ def render(W):
     schema_attrs = (f'xmlns:{xs}="{XSD_NS}" xmlns:{typ}={q(W["types_ns"])} targetNamespace={q(W["types_ns"])} '
                     f'elementFormDefault="{W["efd"]}"')
     files = {}
-    if W["schema_mode"] == "imported":
-        files["types.xsd"] = f'<?xml version="1.0" encoding="UTF-8"?>\n<{xs}:schema {schema_attrs}>\n    {schema_body()}\n</{xs}:schema>\n'
-        types = (f'<{w}types><{xs}:schema><{xs}:import namespace={q(W["types_ns"])} schemaLocation="types.xsd"/>'
-                 f'</{xs}:schema></{w}types>')
-    else:
-        types = f'<{w}types><{xs}:schema {schema_attrs}>\n    {schema_body()}\n  </{xs}:schema></{w}types>'
+    split = W.get("split")
+
+    def types_block(elements, with_types, external):
+        if external:
+            files["types.xsd"] = (f'<?xml version="1.0" encoding="UTF-8"?>\n<{xs}:schema {schema_attrs}>\n    '
+                                  f'{schema_body(elements, with_types)}\n</{xs}:schema>\n')
+            return (f'<{w}types><{xs}:schema><{xs}:import namespace={q(W["types_ns"])} schemaLocation="types.xsd"/>'
+                    f'</{xs}:schema></{w}types>')
+        return f'<{w}types><{xs}:schema {schema_attrs}>\n    {schema_body(elements, with_types)}\n  </{xs}:schema></{w}types>'
+
+    external = W["schema_mode"] == "imported"
+    if not split or split["types"] == "main":
+        types, types_b = types_block(None, True, external), None
+    elif split["types"] == "imported":
+        types, types_b = None, types_block(None, True, external)
+    else:   # both files have <types>: the elements named in split["elements_b"] (and the named types) live in the imported WSDL
+        ea = [e for e in W["elements"] if e["name"] not in split["elements_b"]]
+        eb = [e for e in W["elements"] if e["name"] in split["elements_b"]]
+        types = types_block(ea, False, external)
+        types_b = types_block(eb, True, False)
 
     root_ns = [f'xmlns:{sp}="{SOAP_NS}"', f'xmlns:{tp}={q(W["tns"])}', f'xmlns:{xs}="{XSD_NS}"']
     if px["types"]:
@@ -307,8 +335,10 @@ def render(W):
             root_ns.append(f'xmlns={q(W["tns"])}')
     else:
         root_ns.append(f'xmlns="{WSDL_NS}"')
-    out = ['<?xml version="1.0" encoding="UTF-8"?>',
-           f'<{w}definitions {" ".join(root_ns)} targetNamespace={q(W["tns"])} name="D">', "  " + types]
+    head = ['<?xml version="1.0" encoding="UTF-8"?>',
+            f'<{w}definitions {" ".join(root_ns)} targetNamespace={q(W["tns"])} name="D">']
+    sec = {"messages": [], "port_types": [], "bindings": [], "services": []}
+    out = sec["messages"]
     for m in W["messages"]:
         out.append(f'  <{w}message name={q(m["name"])}>')
         for p in m["parts"]:
@@ -321,6 +351,7 @@ def render(W):
                 kind, ty = p["type"]
                 out.append(f'    <{w}part name={q(p["name"])} type={q((xs if kind == "xsd" else typ) + ":" + ty)}/>')
         out.append(f'  </{w}message>')
+    out = sec["port_types"]
     for pt in W["port_types"]:
         out.append(f'  <{w}portType name={q(pt["name"])}>')
         for op in pt["ops"]:
@@ -332,6 +363,7 @@ def render(W):
                 out.append(f'      <{w}fault name={q(fn)} message={q(ref(fm))}/>')
             out.append(f'    </{w}operation>')
         out.append(f'  </{w}portType>')
+    out = sec["bindings"]
     for b in W["bindings"]:
         out.append(f'  <{w}binding name={q(b["name"])} type={q(ref(b["type"]))}>')
         out.append(f'    <{sp}:binding transport={q(b["transport"])}' + (f' style={q(b["style"])}' if b["style"] else "") + "/>")
@@ -362,13 +394,30 @@ def render(W):
                 out.append(f'      <{w}fault name={q(fn)}><{sp}:fault name={q(fn)} use="literal"/></{w}fault>')
             out.append(f'    </{w}operation>')
         out.append(f'  </{w}binding>')
+    out = sec["services"]
     for s in W["services"]:
         out.append(f'  <{w}service name={q(s["name"])}>')
         for p in s["ports"]:
             out.append(f'    <{w}port name={q(p["name"])} binding={q(ref(p["binding"]))}><{sp}:address location={q(p["location"])}/></{w}port>')
         out.append(f'  </{w}service>')
-    out.append(f'</{w}definitions>')
-    files["svc.wsdl"] = "\n".join(out) + "\n"
+    order = ["messages", "port_types", "bindings", "services"]
+    moved = set(split["imported"]) if split else set()
+    main = list(head)
+    if split:
+        main.append(f'  <{w}import namespace={q(W["tns"])} location="defs.wsdl"/>')
+        second = list(head) + (["  " + types_b] if types_b else [])
+        for k in order:
+            if k in moved:
+                second += sec[k]
+        second.append(f'</{w}definitions>')
+        files["defs.wsdl"] = "\n".join(second) + "\n"
+    if types:
+        main.append("  " + types)
+    for k in order:
+        if k not in moved:
+            main += sec[k]
+    main.append(f'</{w}definitions>')
+    files["svc.wsdl"] = "\n".join(main) + "\n"
     return files
 
 
@@ -385,7 +434,7 @@ def _trim(nsmap, *qnames):
     return sorted(([k, u] for k, u in out.items()), key=lambda kv: kv[0] or "")
 
 
-def read_lxml(text):
+def read_lxml(text, finish=True):
     from lxml import etree
 
     root = etree.fromstring(text.encode("utf-8"))
@@ -434,7 +483,7 @@ def read_lxml(text):
              "faults": [ptm(f) for f in kids(op, W_ + "fault")]} for op in kids(pt, W_ + "operation")]})
     for m in D["messages"]:
         el = msg_el[m["name"]]
-        m["ns"] = _trim(el.nsmap, *sorted(used.get(m["name"], ())))
+        m["_nsmap"] = dict(el.nsmap)          # trimmed by finish_message_ns once every portType is known
 
     def bmsg(el):
         if el is None:
@@ -486,7 +535,43 @@ def read_lxml(text):
             ports.append({"name": p.get("name"), "binding": p.get("binding"), "ns": _trim(p.nsmap, p.get("binding")),
                           "address": ad[0].get("location") if ad else None})
         D["services"].append({"name": s.get("name"), "ports": ports})
+    return finish_message_ns(D) if finish else D
+
+
+def finish_message_ns(D):
+    """a message keeps, of its own declarations, those the portTypes' QNames naming it use"""
+    used = {}
+    for pt in D["port_types"]:
+        for op in pt["operations"]:
+            for o in [op["input"], op["output"]] + op["faults"]:
+                if o is not None:
+                    v = o["message"]
+                    used.setdefault(v.split(":", 1)[1] if ":" in v else v, set()).add(v)
+    for m in D["messages"]:
+        m["ns"] = _trim(m.pop("_nsmap"), *sorted(used.get(m["name"], ())))
     return D
+
+
+def read_lxml_files(files, name="svc.wsdl", seen=()):
+    """the document `name` with the WSDL documents it reaches by wsdl:import appended (components of the
+    importing document first, as WSDL 1.1 2.1.1 makes both sets available under one target namespace)"""
+    from lxml import etree
+
+    D = read_lxml(files[name], finish=False)
+    root = etree.fromstring(files[name].encode("utf-8"))
+    for imp in root:
+        if isinstance(imp.tag, str) and imp.tag == "{%s}import" % WSDL_NS:
+            loc = imp.get("location") or ""
+            if not loc.endswith("wsdl"):
+                continue        # an XML Schema imported at WSDL level: no WSDL components
+            if loc not in files or loc in seen:
+                raise ValueError("unresolvable wsdl:import " + loc)
+            sub = read_lxml_files(files, loc, seen + (name,))
+            if sub["tns"] != D["tns"] or imp.get("namespace") != D["tns"]:
+                raise ValueError("wsdl:import of another target namespace is outside the fragment")
+            for k in ("messages", "port_types", "bindings", "services"):
+                D[k] += sub[k]
+    return finish_message_ns(D) if not seen else D
 
 
 def read_simple_types(files):
